@@ -2,21 +2,49 @@
 from .. import common, tlc
 
 # property -> list of (module, cfg, timeout)
-CONFIGS = {}
+_ALL = [('RSocketMC', 'RSocketMC_%s.cfg' % k, 900) for k in
+        ('rr', 'rr_s', 'stream', 'stream_s', 'stream_lib', 'channel_nopub', 'channel_lib', 'channel')]
+_SMALL = [c for c in _ALL if c[1] != 'RSocketMC_channel.cfg']
+CONFIGS = {
+    'C01': _ALL, 'C07': _ALL, 'C08': _ALL, 'C09': _ALL, 'C10': _ALL,
+    'C06': [c for c in _ALL if 'lib' in c[1] or c[1] == 'RSocketMC_stream.cfg'],
+    'C05': _SMALL, 'C11': _SMALL, 'C12': _SMALL,
+}
+
+
+_EXPECTED_UNUSED = {
+    'rr': {'PubComplete', 'PubError', 'PubNext', 'SubCancel', 'SubRequestN'},
+    'stream': {'FutCancel', 'FutCancelCallback', 'Respond'},
+    'channel': {'FutCancel', 'FutCancelCallback', 'Respond'},
+}
 
 
 def run_for(v, prop):
-    for module, cfg, timeout in CONFIGS.get(prop, []):
-        r = tlc.run(module, cfg, coverage=True, timeout=timeout, name='mc_' + cfg.replace('.cfg', ''))
+    from concurrent.futures import ThreadPoolExecutor
+    thorough = common.tier() == 'thorough'
+    cfgs = CONFIGS.get(prop, [])
+    if not thorough:
+        cfgs = [c for c in cfgs if c[1] != 'RSocketMC_channel.cfg']
+
+    def one(c):
+        module, cfg, timeout = c
+        return c, tlc.run(module, cfg, coverage=thorough, timeout=timeout, workers=4 if thorough else 2, name='mc_' + cfg.replace('.cfg', ''))
+
+    with ThreadPoolExecutor(max_workers=2 if thorough else 7) as ex:
+        results = list(ex.map(one, cfgs))
+    for (module, cfg, timeout), r in results:
         if r.timed_out or not r.finished:
             raise common.Machinery('TLC did not finish on %s/%s: %s' % (module, cfg, r.out[-1500:]))
         if r.violated:
             v.add_failure('%s.design_%s' % (prop, r.violated), {'cfg': cfg}, 'TLC: %s violated in the design model %s' % (r.violated, cfg))
         v.add('states', r.distinct)
         v.add('transitions', r.generated)
-        cov = r.coverage()
-        zero = sorted(a for a, (d, t) in cov.items() if t == 0)
-        if zero:
-            v.notes.append('vacuity warning (%s): actions never taken: %s' % (cfg, ', '.join(zero)))
+        if thorough:
+            cov = r.coverage()
+            kind = 'rr' if '_rr' in cfg else ('stream' if '_stream' in cfg else 'channel')
+            zero = sorted(a for a, (d, t) in cov.items() if t == 0 and a not in _EXPECTED_UNUSED[kind]
+                          and not ('lib' in cfg and a in ('PubComplete', 'PubError')))
+            if zero:
+                v.notes.append('vacuity warning (%s): actions never taken: %s' % (cfg, ', '.join(zero)))
         v.coverage.setdefault('mc_configs', {})[cfg] = {'states': r.distinct, 'transitions': r.generated, 'depth': r.depth,
                                                         'wall_s': round(r.wall, 1)}
